@@ -48,7 +48,7 @@ func main() {
 		env = strings.Split(e, ",")
 	}
 	if *dump != "" {
-		ctx, err := eng.Load(eng.LoadOpts{Repo: *repo, Env: env})
+		ctx, err := eng.Load(eng.LoadOpts{Repo: *repo, Env: env, Overlay: overlay})
 		if err != nil {
 			fmt.Println(err)
 			os.Exit(2)
